@@ -112,8 +112,25 @@ fn encode_case(rng: &mut Rng, out: &mut CaseOut) {
     }
     let lens: Vec<usize> = shards.iter().map(Vec::len).collect();
     let desc = format!("encode({k}, {r}, {} shards, lens {:?})", n, &lens[..lens.len().min(6)]);
+    // The iterator handed to encode() is either the plain slice (exact
+    // size_hint) or a filtering adaptor over a longer candidate list (upper
+    // bound of size_hint larger than what is really yielded, lower bound 0).
+    let decoys = if rng.chance(1, 2) { rng.range(1, 3) } else { 0 };
+    let mut cands: Vec<(bool, &Vec<u8>)> = shards.iter().map(|s| (true, s)).collect();
+    let junk = vec![0u8; size];
+    for _ in 0..decoys {
+        let at = rng.below(cands.len() + 1);
+        cands.insert(at, (false, &junk));
+    }
+    let desc = if decoys > 0 { format!("{desc} via filter iterator ({decoys} filtered-out candidates)") } else { desc };
     // a successful call allocates the working space: bounded because size <= 130
-    let one = guarded(|| reed_solomon_simd::encode(k, r, &shards));
+    let one = guarded(|| {
+        if decoys > 0 {
+            reed_solomon_simd::encode(k, r, cands.iter().filter(|c| c.0).map(|c| c.1))
+        } else {
+            reed_solomon_simd::encode(k, r, &shards)
+        }
+    });
     let model = guarded(|| streaming_encode(k, r, &shards));
     out.evals += 1;
     let (one, model) = match (one, model) {
@@ -152,6 +169,9 @@ fn encode_case(rng: &mut Rng, out: &mut CaseOut) {
             }
             out.tag(format!("encode:err:{}", codec::err_name(e)));
         }
+    }
+    if decoys > 0 {
+        out.tag("encode:inexact-size-hint-iterator");
     }
     out.nontrivial_key(&format!("{desc}/{}", rng.next_u64()));
     out.sample = Some(jobj(&[("call", jstr(&desc))]));
@@ -359,12 +379,25 @@ fn decode_case(rng: &mut Rng, out: &mut CaseOut) {
         o.iter().take(6).map(|(i, s)| (*i, s.len())).collect::<Vec<_>>(),
         rec.iter().take(6).map(|(i, s)| (*i, s.len())).collect::<Vec<_>>()
     );
+    // iterators with inexact size_hint in half of the cases (see encode_case)
+    let inexact = rng.chance(1, 2);
+    let junk = (usize::MAX, Vec::new());
+    let mut oc: Vec<(bool, &(usize, Vec<u8>))> = o.iter().map(|x| (true, x)).collect();
+    let mut rc: Vec<(bool, &(usize, Vec<u8>))> = rec.iter().map(|x| (true, x)).collect();
+    if inexact {
+        for _ in 0..rng.range(1, 3) {
+            let at = rng.below(oc.len() + 1);
+            oc.insert(at, (false, &junk));
+            let at = rng.below(rc.len() + 1);
+            rc.insert(at, (false, &junk));
+        }
+    }
     let one = guarded(|| {
         reed_solomon_simd::decode(
             k,
             r,
-            o.iter().map(|(i, s)| (*i, s)),
-            rec.iter().map(|(i, s)| (*i, s)),
+            oc.iter().filter(|c| c.0).map(|c| (c.1 .0, &c.1 .1)),
+            rc.iter().filter(|c| c.0).map(|c| (c.1 .0, &c.1 .1)),
         )
     });
     let model = guarded(|| streaming_decode(k, r, &o, &rec));
@@ -381,6 +414,9 @@ fn decode_case(rng: &mut Rng, out: &mut CaseOut) {
         }
     };
     let kind = if rec.is_empty() { "no-recovery" } else { "with-recovery" };
+    if inexact {
+        out.tag("decode:inexact-size-hint-iterators");
+    }
     match (&one, &model) {
         (Ok(a), Ok(b)) => {
             if a != b {
